@@ -33,6 +33,7 @@ Proof.
     + exists p2. rewrite get_set_same. split; [reflexivity|]. symmetry. apply Hq2. exact Hin.
     + rewrite Hq1 in Hin by exact Hne. rewrite get_set_other by exact Hne. exact (i_qwf _ I _ _ Hin).
   - exact Hnd.
+  - exact (i_height _ I).
 Qed.
 
 (** the queue is unchanged and the pool keeps its end height *)
@@ -150,14 +151,15 @@ Lemma owed_p_del p1 who o d : get who (p_farmers p1) = Some o ->
   owed_p d (with_farmers p1 (del1 who (p_farmers p1))) = owed_p d p1 - owed_f (p_rules p1) d o.
 Proof. intros Hg. unfold owed_p. simpl. rewrite (asum_del1 _ _ _ _ Hg). reflexivity. Qed.
 
-Lemma owed_p_after h b p amt p1 b1 d :
-  pool_inv h p -> update_pool h b p amt false = (p1, b1, true) ->
+Lemma owed_p_after_gen h b p amt dz p1 b1 d :
+  pool_inv h p -> update_pool h b p amt dz = (p1, b1, true) ->
   owed_p d p1 <= owed_p d p + rule_sum (fun r => r_pb r * upd_iv h p) (p_rules p) d * P18
   /\ p_farmers p1 = p_farmers p.
 Proof.
   intros PI Hu. destruct (update_pool_true _ _ _ _ _ _ _ Hu) as (_ & _ & _ & -> & _).
   split; [|reflexivity]. unfold owed_p at 1. simpl. apply collect_owed_pool. exact PI.
 Qed.
+Definition owed_p_after h b p amt := owed_p_after_gen h b p amt false.
 
 (** ** Stake *)
 Lemma get_pool_inv s pid p : inv s -> get pid (pools s) = Some p -> pool_inv (height s) p.
@@ -175,11 +177,12 @@ Proof.
   rewrite map_denom_collect. repeat split; reflexivity.
 Qed.
 
-Lemma rules_ok_after h b p amt p1 b1 : pool_inv h p -> update_pool h b p amt false = (p1, b1, true) -> Forall rule_ok (p_rules p1).
+Lemma rules_ok_after_gen h b p amt dz p1 b1 : pool_inv h p -> update_pool h b p amt dz = (p1, b1, true) -> Forall rule_ok (p_rules p1).
 Proof.
   intros PI Hu. destruct (update_pool_true _ _ _ _ _ _ _ Hu) as (_ & _ & Hcov & -> & _). simpl.
   exact (rules_after h p PI Hcov).
 Qed.
+Definition rules_ok_after h b p amt := rules_ok_after_gen h b p amt false.
 
 Lemma stake_inv s who pid d amt s' rw : inv s -> actor who -> stake s who pid d amt = Done s' rw -> inv s'.
 Proof.
